@@ -9,7 +9,7 @@ LEVEL = "exploration"
 RULE = ("recursive random values: None, bool, ints (incl. beyond 2**64), floats (+-0.0, 1e308, 5e-324, inf, nan), "
         "unicode strings (empty, quotes, control characters, U+2028, astral), UUIDs, a registered third-party type "
         "(decimal.Decimal, fractions.Fraction, a three-level plain-class chain Money > TaxedMoney > Tip registered base "
-        "first, a sub-class registered before its base, a registered sub-class of uuid.UUID, a registered iterable type (collections.deque), registered types and a serialisable class that derive from builtins (named tuple, IntEnum, str)) and an iterable SubclassJSONSerializer sub-class, a 4-level SubclassJSONSerializer hierarchy with nested serialisable fields, lists nested "
+        "first, a sub-class registered before its base, a registered sub-class of uuid.UUID, a registered iterable type (collections.deque), registered types and a serialisable class that derive from builtins (named tuple, IntEnum, str)) and an iterable SubclassJSONSerializer sub-class, a 4-level SubclassJSONSerializer hierarchy with nested serialisable fields, a serialisable class defined inside another class, lists nested "
         "to depth 5 and empty lists; oracle: from_json(json.loads(json.dumps(to_json(v)))) equals v (NaN-aware) with "
         "type(x) is type(y) at every position and every serialised object dict carries its fully qualified tag.  "
         "Non-trivial = value contains an object or a nested list; distinct = type-structure signature of the value")
